@@ -130,6 +130,9 @@ pub fn prop(tier: Tier, _seed: u64) -> Prop {
             }
             let (cx, cy) = (cxs[d[3]], cys[d[4]]);
             ctx.sample(|| json!({"src": [sw, sh], "dst": [dw, dh], "crop": [cx.start, cy.start, cx.len, cy.len]}));
+            if ctx.describe_only {
+                return;
+            }
             // pixel types rotate with the case so that every type meets every geometry class
             let k = idx as usize;
             let pts = [ALL_PT[k % 13], TYPED_PTS[k % 6], ALL_PT[(k / 13 + 5) % 13]];
@@ -153,6 +156,9 @@ pub fn prop(tier: Tier, _seed: u64) -> Prop {
             }
             let (cx, cy) = (cxs[d[4]], cys[d[5]]);
             ctx.sample(|| json!({"src": [sw, sh], "dst": [dw, dh], "crop": [cx.start, cy.start, cx.len, cy.len], "pixel_types": "all 13"}));
+            if ctx.describe_only {
+                return;
+            }
             check(ctx, &ALL_PT, sw, sh, dw, dh, cx, cy, b2[idx as usize % b2.len()]);
             ctx.nontrivial += 1;
         })
@@ -171,6 +177,9 @@ pub fn prop(tier: Tier, _seed: u64) -> Prop {
             let (cxs, cys) = (crop1_small(sw), crop1_small(sh));
             let (cx, cy) = (cxs[d[1] % cxs.len()], cys[(d[1] + 1) % cys.len()]);
             ctx.sample(|| json!({"src": [sw, sh], "dst": [dw, dh], "crop": [cx.start, cy.start, cx.len, cy.len]}));
+            if ctx.describe_only {
+                return;
+            }
             check(ctx, &[PT::U8x2, PT::U16x3, PT::F32, PT::U8x4], sw, sh, dw, dh, cx, cy, b3[idx as usize % b3.len()]);
             ctx.nontrivial += 1;
         })
